@@ -4,7 +4,7 @@
    translator/translate_c01.py), or is a side condition on those tables decided here by computation.
 
    The part that depends on which defects of /repo are still open is the SWITCH BLOCK below
-   (how to edit it when a `fix:` commit lands: /verif/notes/C01.md, section "Switching"). *)
+   (how to edit it when a repair lands or is reverted: /verif/notes/C01.md, section "Switching"). *)
 From Coq Require Import List NArith Bool String.
 From YVGen Require Import GcTables.
 From YV Require Import Heap HeapTablesRef Collect Mutator CollectProofs MutatorProofs CollectExt.
@@ -32,12 +32,19 @@ Proof. vm_compute; reflexivity. Qed.
 
 (* ======================================================================================== *)
 (* ==== SWITCH BLOCK (begin) ============================================================== *)
-(* SWITCH 1 -- open trace-edge classes: (kind, role) pairs a struct can hold that `mark` does not
-   follow and no permanent root pins.  TODAY: three pairs.  Remove (KHashMap, RKey) when the fix
-   "HashMap marks keys" lands, (KClass, RSuperclass) when "ObjClass traces superclass" lands.
-   (KUpvalue, ROpenSlot) = known class open_upvalue_dead_fiber, not scheduled for repair. *)
+(* The two places below say which defects of /repo are still open.  They were switched on
+   2026-09-25 after the repairs ee7595b (bound-method blacken), a563c74 (HashMap keys), 05235d7
+   (ObjClass superclass) landed; `python3 tools/props/C01.py --switch` re-derives both from the
+   current sources (notes/C01.md, "Switching").
+
+   SWITCH 1 -- open trace-edge classes: (kind, role) pairs a struct can hold that `mark` does not
+   follow and no permanent root pins.  Before the repairs the list was
+       [(KUpvalue, ROpenSlot); (KClass, RSuperclass); (KHashMap, RKey)].
+   (KUpvalue, ROpenSlot) = known class open_upvalue_dead_fiber, not scheduled for repair; when it
+   is repaired the list becomes [] and C01_holds_covered_refuted turns into the plain positive
+   statement `tables_cover holds_gen marks_gen pinned_ref = true`. *)
 Definition c01_open_pairs : list (kind * role) :=
-  [(KUpvalue, ROpenSlot); (KClass, RSuperclass); (KHashMap, RKey)].
+  [(KUpvalue, ROpenSlot)].
 
 (* -- the key side condition (statements do not change when switching) -- *)
 (* with only the permanent-root pins it is FALSE as long as an open class is left, and exactly the
@@ -60,11 +67,11 @@ Theorem C01_schedule_dependence_refuted :
   has_uaf (run_gen 3 [] prog_upvalue) = false.
 Proof. split; vm_compute; reflexivity. Qed.
 
-(* -- schedule independence --
+(* -- schedule independence, premise explicit --
    For every mutator program and every two schedules: same observation trace, no use of a reclaimed box,
    no divergence -- for programs that store into the open roles only boxes that stay pinned
    (= programs outside the known open classes; `pinned_c01`), PROVIDED `blacken` never re-greys.
-   The premise is discharged in variant AFTER-FIX of SWITCH 2; today it is refuted. *)
+   The premise is discharged in variant REPAIRED of SWITCH 2. *)
 Theorem C01_schedule_independence_modulo_regrey :
   no_regrey blackens_mark_gen = true ->
   forall nregs p sched1 sched2,
@@ -76,35 +83,10 @@ Proof.
            C01_holds_covered).
 Qed.
 
-(* SWITCH 2 -- `ObjBoundMethod::blacken` calls `receiver.mark()` (re-greying).
-   Variant TODAY is active.  When the fix `receiver.blacken()` lands: delete variant TODAY and
-   un-comment variant AFTER-FIX (remove its first and its last line). *)
+(* SWITCH 2 -- does `ObjBoundMethod::blacken` re-grey its receiver (`receiver.mark()`)?
+   Exactly one of the two variants is active; the other one is kept inside a comment. *)
 
-(* ---- variant TODAY (begin) ---- *)
-Theorem C01_no_regrey_refuted :
-  no_regrey blackens_mark_gen = false /\
-  table_pairs blackens_mark_gen = [(KBoundMethod, RReceiver); (KBoundNative, RReceiver)].
-Proof. split; vm_compute; reflexivity. Qed.
-(* the collector need not terminate (for every amount of fuel): bound-method 4-cycle `loop_heap` *)
-Theorem C01_collect_terminates_refuted :
-  exists h, wf h /\ forall sf pf, collect_with marks_gen blackens_black_gen blackens_mark_gen sf pf h = None.
-Proof.
-  exact (collect_terminates_refuted_ext marks_gen blackens_black_gen blackens_mark_gen
-           (eq_refl : tables_eqb marks_gen marks_ref = true)
-           (eq_refl : tables_eqb blackens_black_gen blackens_black_ref = true)
-           (eq_refl : tables_eqb blackens_mark_gen blackens_mark_ref = true)).
-Qed.
-(* ... and a schedule can make a program diverge that terminates when nothing is collected *)
-Theorem C01_schedule_divergence_refuted :
-  has_diverged (run_gen 5 [false; false; false; false; true] prog_loop) = true /\
-  has_diverged (run_gen 5 [] prog_loop) = false.
-Proof. split; vm_compute; reflexivity. Qed.
-Print Assumptions C01_no_regrey_refuted.
-Print Assumptions C01_collect_terminates_refuted.
-Print Assumptions C01_schedule_divergence_refuted.
-(* ---- variant TODAY (end) ---- *)
-
-(* ---- variant AFTER-FIX (begin; inactive)
+(* ---- variant REPAIRED (begin; active) ---- *)
 Theorem C01_no_regrey : no_regrey blackens_mark_gen = true.
 Proof. vm_compute; reflexivity. Qed.
 Theorem C01_collect_terminates :
@@ -119,7 +101,29 @@ Proof. exact (C01_schedule_independence_modulo_regrey C01_no_regrey). Qed.
 Print Assumptions C01_no_regrey.
 Print Assumptions C01_collect_terminates.
 Print Assumptions C01_schedule_independence.
----- variant AFTER-FIX (end) *)
+(* ---- variant REPAIRED (end) ---- *)
+
+(* ---- variant UNREPAIRED (begin; inactive)
+Theorem C01_no_regrey_refuted :
+  no_regrey blackens_mark_gen = false /\
+  table_pairs blackens_mark_gen = [(KBoundMethod, RReceiver); (KBoundNative, RReceiver)].
+Proof. split; vm_compute; reflexivity. Qed.
+Theorem C01_collect_terminates_refuted :
+  exists h, wf h /\ forall sf pf, collect_with marks_gen blackens_black_gen blackens_mark_gen sf pf h = None.
+Proof.
+  exact (collect_terminates_refuted_ext marks_gen blackens_black_gen blackens_mark_gen
+           (eq_refl : tables_eqb marks_gen marks_ref = true)
+           (eq_refl : tables_eqb blackens_black_gen blackens_black_ref = true)
+           (eq_refl : tables_eqb blackens_mark_gen blackens_mark_ref = true)).
+Qed.
+Theorem C01_schedule_divergence_refuted :
+  has_diverged (run_gen 5 [false; false; false; false; true] prog_loop) = true /\
+  has_diverged (run_gen 5 [] prog_loop) = false.
+Proof. split; vm_compute; reflexivity. Qed.
+Print Assumptions C01_no_regrey_refuted.
+Print Assumptions C01_collect_terminates_refuted.
+Print Assumptions C01_schedule_divergence_refuted.
+---- variant UNREPAIRED (end) *)
 (* ==== SWITCH BLOCK (end) ================================================================ *)
 (* ======================================================================================== *)
 
